@@ -437,17 +437,23 @@ class Evaluator(object):
             if name in obj.attrs:
                 return obj.attrs[name]
             ci = obj.cls
-            p = self._prop(ci, name)
+            # the most derived definition wins: a class-level assignment (`__headercls__ = Header`) in a subclass shadows an
+            # (abstract) property of the same name further down the MRO
+            first = next((c for c in ci.mro() if name in c.attrs or name in c.methods or name in c.props or name in c.plain_props), None)
+            shadowed = first is not None and name in first.attrs and name not in first.methods and name not in first.props and name not in first.plain_props
+            p = None if shadowed else self._prop(ci, name)
             if p is not None and p[0] is not None:
                 # the most derived definition wins: a plain method/property overriding the sdproperty further down the MRO
                 owner = next((c for c in ci.mro() if name in c.methods), None)
                 if owner is None or name in owner.props:
                     return self._call_func(Func(p[0], obj), [], {})
-            pp = ci.find_plain_prop(name)
+            pp = None if shadowed else ci.find_plain_prop(name)
             if pp is not None and pp.get('get') is not None:
                 owner = next((c for c in ci.mro() if name in c.methods), None)
                 if owner is None or name in owner.plain_props:
                     return self._call_func(Func(pp['get'], obj), [], {})
+            if shadowed:
+                return self._class_lookup(ci, name)[1]
             f = self._find_method(ci, name)
             if f is not None:
                 if _is_static(f):
